@@ -18,6 +18,7 @@ import time
 import traceback
 
 from vf import ch
+from vf.known import replay_witness
 from vf.scratch import VERIF, drop, make_scratch
 
 TRUSTED = [
@@ -75,7 +76,7 @@ def main(argv=None):
         for e in known:
             if e.get("status") != "open":
                 continue
-            still = prop.replay_known(scratch, e) if hasattr(prop, "replay_known") else None
+            still = prop.replay_known(scratch, e) if hasattr(prop, "replay_known") else replay_witness(scratch, e)
             rec = {"id": f"{pid}.known/{e['id']}", "engine": "replay", "result": "finding" if still else "finding-not-reproduced",
                    "what": e["what"], "witness": e.get("witness")}
             records.append(rec)
